@@ -221,7 +221,8 @@ class InterSystemRecurrenceNetwork(InteractingNetworks):
     #
 
     def __cache_state__(self) -> Tuple[Hashable, ...]:
-        return (self.rp_x, self.rp_x, self.crp_xy,)
+        return (InteractingNetworks.__cache_state__(self)
+                + (self.rp_x, self.rp_y, self.crp_xy,))
 
     #
     #  Methods to handle inter system recurrence networks
